@@ -12,6 +12,10 @@ checks = {
    "Generated tables carry a unique id per row; the buckets csvq forms are read off as id sets (LISTAGG(id) under GROUP BY and OVER (PARTITION BY), representatives for DISTINCT and the set operators) and judged pairwise against an independent three-valued equality relation (same / different / unspecified), with and without --strict-equal, on key pools that contain csvq's internal key separators split differently across columns, numbers in several spellings, datetimes, boolean words and NULLs, incl. planted tuples whose concatenations coincide; every aggregate is recomputed over the rows of its bucket. Every 8th case runs the parallel group path (200..700 rows, --cpu 2..8).",
    "Trusts the harness equality relation as a reading of the manual; pairs the manual leaves open (boolean word vs 0/1, 1 vs 1.0, one instant in two layouts, NaN) are not judged.",
    "runtime monitor: pairwise bucket-membership oracle via unique row ids + aggregate recomputation"),
+ "C05": ("exploration", "§5 C05",
+   "Histories of 3..12 data-changing statements (INSERT in three forms, UPDATE/DELETE single- and multi-table, REPLACE USING on unique and on duplicate-holding key columns, ALTER ADD/DROP/RENAME with every position clause) run statement by statement in one real transaction over a CSV file, a TSV file and a temporary table; after EVERY statement SELECT * of every table (cells, row order, column order) and the reported affected-row count are compared with an executable table model, and after COMMIT the reloaded files are compared. Every 6th case runs the parallel paths (160..700 rows, --cpu 2..8) twice.",
+   "Generated statements write string literals, NULL or copies of cells, and predicates stay in the region where the reference ladder is specified. Unspecified forms (duplicate keys inside a replacement set, multiply-matched joined updates) are not generated.",
+   "runtime monitor: executable reference model compared after every step of a history"),
  "C06": ("exploration", "§5 C06",
    "Every operator result on every ordered pair of a ~165-value pool (all value classes of the quantifier) is produced by the real evaluator, through three operand carriers, and checked online against the algebraic laws of the statement, an independent coercion ladder written from the manual, and the documented expansions on sampled triples. Exhaustive over the pool for pairs; sampled for triples.",
    "Trusts the harness reference ladder (refval.go) as a faithful reading of the manual; spellings the manual does not pin down are checked against the laws only.",
